@@ -306,3 +306,13 @@ package receiver
 //@ func (*receiver.Transfer).deleteFiles$1
 //@   ensures[C09] [rule-protected-kept] userExcludes(rt, path) ==> ghost.removed == old(ghost.removed)
 //@   ensures[C09] [rule-protected-directory-not-entered] err == nil && !inList(fileList, path) && userExcludes(rt, path) && modeIsDir(infoMode(entryInfo(data(info)))) ==> ret == global("io/fs.SkipDir")
+
+// ---------------------------------------------------------------- C03: a failed file fails the transfer
+// rfReq counts the files RecvFiles hands to recvFile1 outside a dry run. When
+// RecvFiles reports success each of them was verified and renamed into place:
+// a file whose verification failed cannot be passed over in silence.
+//@ ghost rfReq: int
+//@ func (*receiver.Transfer).RecvFiles
+//@   at[C03] (*receiver.Transfer).recvFile1: set ghost.rfReq = ghost.rfReq + ite(rt.Opts.DryRun, 0, 1)
+//@   loop[C03] 0: invariant [every-file-so-far-renamed] ghost.renames - old(ghost.renames) == ghost.rfReq - old(ghost.rfReq)
+//@   ensures[C03] [success-means-every-requested-file-was-renamed] err == nil ==> ghost.renames - old(ghost.renames) == ghost.rfReq - old(ghost.rfReq)
